@@ -124,17 +124,41 @@ class State:
         self.pc = o.pc; self.env = o.env; self.heap = o.heap; self.ghost = o.ghost
 
 
+class GuardedLog:
+    """ghost log of events: list of (guard, payload tuple); survives state merging (entries get the branch condition)"""
+    def __init__(self, entries=()):
+        self.entries = list(entries)
+
+    def add(self, payload):
+        return GuardedLog(self.entries + [(z3.BoolVal(True), tuple(payload))])
+
+    def guarded(self, cond):
+        return GuardedLog([(z3.And(cond, g) if not z3.is_true(g) else cond, p) for g, p in self.entries])
+
+    @staticmethod
+    def merge(conds, logs):
+        # common prefix (identical entries) is kept unguarded
+        k = 0
+        n = min(len(l.entries) for l in logs)
+        while k < n and all(l.entries[k] is logs[0].entries[k] for l in logs[1:]): k += 1
+        out = list(logs[0].entries[:k])
+        for c, l in zip(conds, logs):
+            for g, p in l.entries[k:]:
+                out.append((z3.And(c, g) if not z3.is_true(g) else c, p))
+        return GuardedLog(out)
+
+
 class QForall:
     """lazily instantiated universal fact / goal over one or more Int variables: fn(*terms) -> BoolRef"""
-    def __init__(self, fn, arity=1, name=''):
-        self.fn = fn; self.arity = arity; self.name = name
+    def __init__(self, fn, arity=1, name='', syms=()):
+        self.fn = fn; self.arity = arity; self.name = name; self.syms = list(syms)
 
     def eq(self, o):
         return self is o
 
     def guarded(self, cond):
         f = self.fn
-        return QForall(lambda *a: z3.Implies(cond, f(*a)), self.arity, self.name)
+        return QForall(lambda *a: z3.Implies(cond, f(*a)), self.arity, self.name, self.syms)
 
 
 def is_z3(v):
@@ -161,6 +185,7 @@ def merge_vals(conds, vals):
     """n-way ite merge; conds[i] guards vals[i]; last one is the default"""
     v0 = vals[0]
     if all(v is v0 for v in vals): return v0
+    if isinstance(v0, GuardedLog): return GuardedLog.merge(conds, vals)
     if is_z3(v0):
         if all(is_z3(v) and v.eq(v0) for v in vals): return v0
         r = vals[-1]
@@ -234,6 +259,11 @@ def merge_states(states, rets=None, base=None):
         m.heap[key] = merge_vals(conds, vals)
     gk = set(states[0].ghost)
     for s in states[1:]: gk &= set(s.ghost)
+    for s in states:
+        for key, v in s.ghost.items():
+            if isinstance(v, GuardedLog) and key not in gk:
+                gk.add(key)
+                for s2 in states: s2.ghost.setdefault(key, GuardedLog())
     for key in gk:
         try:
             m.ghost[key] = merge_vals(conds, [s.ghost[key] for s in states])
